@@ -52,6 +52,9 @@ pub mod ffi {
         let idx = idx.try_into().ok();
         match idx.and_then(|idx| this.get(idx)) {
             Some(src) => {
+                #[cfg(feature = "verif-hooks")]
+                super::c16_api::ptr_obtained(src);
+
                 // We got a pointer into the list, clone it into out at the correct alignment
 
                 // To leave this value in a valid state even if a panic happens
@@ -63,6 +66,8 @@ pub mod ffi {
                 // `out` must be a valid RotoOption<T>.
                 unsafe { out.cast::<u8>().write(1) };
 
+                #[cfg(feature = "verif-hooks")]
+                super::c16_api::sched_lock(&this.0, "ffi::list_get:relock");
                 let raw = this.0.lock().unwrap();
                 let size = raw.vtable.size();
                 let alignment = raw.vtable.align();
@@ -75,6 +80,8 @@ pub mod ffi {
                 let dst = unsafe { out.byte_add(offset) };
 
                 // If there is no clone function, we can optimize this by doing a memcpy.
+                #[cfg(feature = "verif-hooks")]
+                let _c16_use = super::c16_api::ptr_use(src);
                 match raw.vtable.clone_fn {
                     Some(clone_fn) => {
                         // SAFETY: dst is correct per the explanation above. src
@@ -242,6 +249,12 @@ pub mod boundary {
         /// Get the element at index `idx`
         pub fn get(&self, idx: usize) -> Option<T> {
             let ptr = self.inner.get(idx)?;
+            #[cfg(feature = "verif-hooks")]
+            let _c16_use = super::c16_api::lookup_then_use(
+                &self.inner.0,
+                ptr,
+                "List::get:use",
+            );
 
             // SAFETY: The list has values of T::Transformed, which means that
             // this cast is valid.
@@ -315,6 +328,8 @@ pub mod boundary {
     impl<T: Clone + Value> List<T> {
         /// Convert this [`List`] into a regular [`Vec`].
         pub fn to_vec(&self) -> Vec<T> {
+            #[cfg(feature = "verif-hooks")]
+            super::c16_api::sched_lock(&self.inner.0, "List::to_vec");
             let guard = self.inner.0.lock().unwrap();
 
             // SAFETY: The RawList always contains a valid slice. Even if the
@@ -435,6 +450,13 @@ pub mod boundary {
             Some(item)
         }
     }
+
+    #[cfg(feature = "verif-hooks")]
+    impl<T: Value> List<T> {
+        pub(super) fn erased(&self) -> &ErasedList {
+            &self.inner
+        }
+    }
 }
 
 // We use `*mut ()` and `NonNull<()>` to represent `*mut T` and
@@ -453,7 +475,11 @@ impl PartialEq for ErasedList {
             return true;
         }
 
+        #[cfg(feature = "verif-hooks")]
+        c16_api::sched_lock(&self.0, "ErasedList::eq:self");
         let this = self.0.lock().unwrap();
+        #[cfg(feature = "verif-hooks")]
+        c16_api::sched_lock(&other.0, "ErasedList::eq:other");
         let other = other.0.lock().unwrap();
 
         if this.len != other.len {
@@ -495,6 +521,8 @@ impl ErasedList {
     pub unsafe fn push(&self, elem_ptr: NonNull<T>) {
         // SAFETY: We require that `elem_ptr` must be a pointer to the element
         // type `T` that the list contains.
+        #[cfg(feature = "verif-hooks")]
+        c16_api::sched_lock(&self.0, "ErasedList::push");
         unsafe { self.0.lock().unwrap().push(elem_ptr) };
     }
 
@@ -505,9 +533,13 @@ impl ErasedList {
     /// Both `self` and `other` must have the same element type.
     ///
     pub unsafe fn concat(&self, other: &Self) -> Self {
+        #[cfg(feature = "verif-hooks")]
+        c16_api::sched_lock(&self.0, "ErasedList::concat:self");
         let a = self.0.lock().unwrap();
 
         let new = Self::new(a.vtable.clone());
+        #[cfg(feature = "verif-hooks")]
+        c16_api::sched_lock(&new.0, "ErasedList::concat:new");
         let mut raw = new.0.lock().unwrap();
 
         // SAFETY: self and other have the same element type
@@ -517,6 +549,8 @@ impl ErasedList {
         // We need to ensure we don't lock the mutex twice
         drop(a);
 
+        #[cfg(feature = "verif-hooks")]
+        c16_api::sched_lock(&other.0, "ErasedList::concat:other");
         let b = other.0.lock().unwrap();
 
         // SAFETY: raw and b have the same element type
@@ -530,6 +564,8 @@ impl ErasedList {
     }
 
     pub fn get(&self, idx: usize) -> Option<NonNull<T>> {
+        #[cfg(feature = "verif-hooks")]
+        c16_api::sched_lock(&self.0, "ErasedList::get");
         self.0.lock().unwrap().get(idx)
     }
 
@@ -543,6 +579,8 @@ impl ErasedList {
     pub unsafe fn contains(&self, item_ptr: NonNull<T>) -> bool {
         // SAFETY: We require that the item_ptr points to the same type as in
         // the list.
+        #[cfg(feature = "verif-hooks")]
+        c16_api::sched_lock(&self.0, "ErasedList::contains");
         unsafe { self.0.lock().unwrap().contains(item_ptr) }
     }
 
@@ -554,6 +592,8 @@ impl ErasedList {
     ///  - There must be no references to that value.
     ///  - The value cannot be used after this function.
     pub unsafe fn contains_owned(&self, item_ptr: NonNull<T>) -> bool {
+        #[cfg(feature = "verif-hooks")]
+        c16_api::sched_lock(&self.0, "ErasedList::contains_owned");
         let raw = self.0.lock().unwrap();
 
         // SAFETY: We require that the item_ptr points to the same type as in
@@ -580,6 +620,8 @@ impl ErasedList {
     pub unsafe fn index(&self, item_ptr: NonNull<T>) -> Option<usize> {
         // SAFETY: We require that the item_ptr points to the same type as in
         // the list.
+        #[cfg(feature = "verif-hooks")]
+        c16_api::sched_lock(&self.0, "ErasedList::index");
         unsafe { self.0.lock().unwrap().index(item_ptr) }
     }
 
@@ -591,6 +633,8 @@ impl ErasedList {
     ///  - There must be no references to that value.
     ///  - The value cannot be used after this function.
     pub unsafe fn index_owned(&self, item_ptr: NonNull<T>) -> Option<usize> {
+        #[cfg(feature = "verif-hooks")]
+        c16_api::sched_lock(&self.0, "ErasedList::index_owned");
         let raw = self.0.lock().unwrap();
 
         // SAFETY: We require that the item_ptr points to the same type as in
@@ -608,18 +652,26 @@ impl ErasedList {
     }
 
     pub fn swap(&self, i: usize, j: usize) {
+        #[cfg(feature = "verif-hooks")]
+        c16_api::sched_lock(&self.0, "ErasedList::swap");
         self.0.lock().unwrap().swap(i, j)
     }
 
     pub fn len(&self) -> usize {
+        #[cfg(feature = "verif-hooks")]
+        c16_api::sched_lock(&self.0, "ErasedList::len");
         self.0.lock().unwrap().len()
     }
 
     pub fn capacity(&self) -> usize {
+        #[cfg(feature = "verif-hooks")]
+        c16_api::sched_lock(&self.0, "ErasedList::capacity");
         self.0.lock().unwrap().capacity()
     }
 
     pub fn is_empty(&self) -> bool {
+        #[cfg(feature = "verif-hooks")]
+        c16_api::sched_lock(&self.0, "ErasedList::is_empty");
         self.0.lock().unwrap().is_empty()
     }
 }
@@ -936,6 +988,13 @@ impl RawList {
                     )
                 };
                 self.ptr = new_ptr;
+                #[cfg(feature = "verif-hooks")]
+                c16_api::realloc(
+                    ptr,
+                    self.capacity * self.vtable.size(),
+                    new_ptr,
+                    new_capacity * self.vtable.size(),
+                );
             } else {
                 // SAFETY: At this point, we know that the size of the layout
                 // is not zero and we that the `new_capacity` is not
@@ -1058,6 +1117,8 @@ impl RawList {
         }
 
         if let Some(ptr) = self.current_memory() {
+            #[cfg(feature = "verif-hooks")]
+            c16_api::free(ptr, self.capacity * self.vtable.size());
             // SAFETY: We allocated the ptr with alloc_array or realloc_array.
             unsafe {
                 dealloc_array(ptr, self.vtable.layout(), self.capacity)
@@ -1196,6 +1257,108 @@ fn array_layout(elem_layout: Layout, n: usize) -> Layout {
     let array_size = element_size * n;
 
     Layout::from_size_align(array_size, align).unwrap()
+}
+
+/// Verification hooks of property C16 (see `verif_hooks/c16.rs`): schedule
+/// points and pointer / buffer events, plus entry points to the crate-private
+/// script-side operations for `List<u64>`.
+#[cfg(feature = "verif-hooks")]
+pub mod c16_api {
+    use std::ptr::NonNull;
+    use std::sync::{Arc, Mutex};
+
+    use super::{ErasedList, RawList, boundary::List};
+    use crate::verif_hooks::c16 as h;
+
+    unsafe fn is_free(p: *const ()) -> bool {
+        // SAFETY: `p` was made from a live `Arc<Mutex<RawList>>` by `probe`
+        // and the thread that published it keeps it alive.
+        let m = unsafe { &*(p as *const Mutex<RawList>) };
+        !matches!(m.try_lock(), Err(std::sync::TryLockError::WouldBlock))
+    }
+
+    fn probe(m: &Arc<Mutex<RawList>>) -> h::LockProbe {
+        h::LockProbe {
+            mutex: Arc::as_ptr(m) as *const (),
+            is_free,
+        }
+    }
+
+    pub(super) fn sched_lock(m: &Arc<Mutex<RawList>>, site: &'static str) {
+        h::sched_lock(site, Arc::as_ptr(m) as usize, probe(m));
+    }
+
+    pub(super) fn ptr_obtained(p: NonNull<()>) {
+        h::ptr_obtained(p.as_ptr() as usize);
+    }
+
+    pub(super) fn ptr_use(p: NonNull<()>) -> h::UseScope {
+        h::ptr_use(p.as_ptr() as usize)
+    }
+
+    /// pointer obtained; schedule point between lookup and use; use
+    pub(super) fn lookup_then_use(
+        m: &Arc<Mutex<RawList>>,
+        p: NonNull<()>,
+        site: &'static str,
+    ) -> h::UseScope {
+        h::ptr_obtained(p.as_ptr() as usize);
+        h::sched_use(site, Arc::as_ptr(m) as usize, probe(m));
+        h::ptr_use(p.as_ptr() as usize)
+    }
+
+    pub(super) fn realloc(
+        old: NonNull<()>,
+        old_bytes: usize,
+        new: NonNull<()>,
+        new_bytes: usize,
+    ) {
+        h::realloc(
+            old.as_ptr() as usize,
+            old_bytes,
+            new.as_ptr() as usize,
+            new_bytes,
+        );
+    }
+
+    pub(super) fn free(base: NonNull<()>, bytes: usize) {
+        h::free(base.as_ptr() as usize, bytes);
+    }
+
+    /// identity of the list's mutex (what `sched_lock` reports as `lock_id`)
+    pub fn lock_id(l: &List<u64>) -> usize {
+        Arc::as_ptr(&l.erased().0) as usize
+    }
+
+    /// the script-side `get` (`ffi::list_get`) on a `List<u64>`
+    pub fn ffi_get_u64(l: &List<u64>, idx: u64) -> Option<u64> {
+        #[repr(C, align(8))]
+        struct Out([u8; 16]);
+        let mut out = Out([0xAA; 16]);
+        let this: ErasedList = l.erased().clone();
+        // SAFETY: `out` is aligned to 8 and large enough for
+        // `RotoOption<u64>` (discriminant byte, value at offset 8); `this`
+        // is a valid list of u64.
+        unsafe { super::ffi::list_get(out.0.as_mut_ptr().cast(), this, idx) };
+        match out.0[0] {
+            0 => Some(u64::from_ne_bytes(out.0[8..16].try_into().unwrap())),
+            _ => None,
+        }
+    }
+
+    /// the script-side `==` (`ErasedList::eq`)
+    pub fn erased_eq_u64(a: &List<u64>, b: &List<u64>) -> bool {
+        a.erased() == b.erased()
+    }
+
+    /// the script-side `contains` (`ErasedList::contains_owned`)
+    pub fn contains_owned_u64(l: &List<u64>, v: u64) -> bool {
+        let mut v = v;
+        // SAFETY: `v` is a valid u64, which has no drop function.
+        unsafe {
+            l.erased().contains_owned(NonNull::from_mut(&mut v).cast::<()>())
+        }
+    }
 }
 
 #[cfg(test)]
